@@ -514,3 +514,194 @@ func (c *Ctx) inlineSingleReturn(info *types.Info, call *ast.CallExpr) ast.Expr 
 	}
 	return cp(ret.Results[0])
 }
+
+// inlineValueCalls expands, in a statement list, `v := f(a, b, …)` / `v = f(…)` where f is an
+// unexported single-result function of the same package made of assignments, ifs and returns
+// and the arguments are plain identifiers: the callee's statements are copied with its
+// parameters replaced by the argument identifiers, and every `return E` becomes `v = E` (the
+// statements after a returning branch move into the other branch). The copies reuse the leaf
+// nodes of the originals, so type information keeps resolving.
+func (c *Ctx) inlineValueCalls(info *types.Info, list []ast.Stmt, exportedToo bool) []ast.Stmt {
+	var out []ast.Stmt
+	for _, s := range list {
+		as, ok := s.(*ast.AssignStmt)
+		if !ok || len(as.Lhs) != 1 || len(as.Rhs) != 1 {
+			out = append(out, s)
+			continue
+		}
+		call, ok := as.Rhs[0].(*ast.CallExpr)
+		target, isID := as.Lhs[0].(*ast.Ident)
+		if !ok || !isID {
+			out = append(out, s)
+			continue
+		}
+		fn := callee(info, call)
+		if fn == nil || (fn.Exported() && !exportedToo) {
+			out = append(out, s)
+			continue
+		}
+		d := c.P.Decls[fn.Origin()]
+		if d == nil || d.Decl.Body == nil || d.Pkg.TypesInfo != info || d.Decl.Recv != nil {
+			out = append(out, s)
+			continue
+		}
+		sig := fn.Type().(*types.Signature)
+		if sig.Results().Len() != 1 {
+			out = append(out, s)
+			continue
+		}
+		sub := map[types.Object]*ast.Ident{}
+		i, plain := 0, true
+		for _, f := range d.Decl.Type.Params.List {
+			for _, nm := range f.Names {
+				if i >= len(call.Args) {
+					plain = false
+					break
+				}
+				a, isIdent := call.Args[i].(*ast.Ident)
+				if !isIdent {
+					plain = false
+					break
+				}
+				sub[info.ObjectOf(nm)] = a
+				i++
+			}
+		}
+		if !plain {
+			out = append(out, s)
+			continue
+		}
+		cl := &astCloner{info: info, sub: sub}
+		body, ok := cl.valueBody(d.Decl.Body.List, target)
+		if !ok {
+			out = append(out, s)
+			continue
+		}
+		if as.Tok == token.DEFINE {
+			// declare the target first
+			decl := &ast.DeclStmt{Decl: &ast.GenDecl{TokPos: as.Pos(), Tok: token.VAR, Specs: []ast.Spec{&ast.ValueSpec{Names: []*ast.Ident{target}}}}}
+			out = append(out, decl)
+		}
+		out = append(out, body...)
+	}
+	return out
+}
+
+type astCloner struct {
+	info *types.Info
+	sub  map[types.Object]*ast.Ident
+}
+
+func (cl *astCloner) expr(e ast.Expr) ast.Expr {
+	keep := func(n ast.Expr, old ast.Expr) ast.Expr {
+		if tv, ok := cl.info.Types[old]; ok {
+			cl.info.Types[n] = tv
+		}
+		return n
+	}
+	switch x := e.(type) {
+	case nil:
+		return nil
+	case *ast.Ident:
+		if r, ok := cl.sub[cl.info.ObjectOf(x)]; ok {
+			return r
+		}
+		return x
+	case *ast.ParenExpr:
+		return keep(&ast.ParenExpr{Lparen: x.Lparen, X: cl.expr(x.X), Rparen: x.Rparen}, x)
+	case *ast.SelectorExpr:
+		n := &ast.SelectorExpr{X: cl.expr(x.X), Sel: x.Sel}
+		if s, ok := cl.info.Selections[x]; ok {
+			cl.info.Selections[n] = s
+		}
+		return keep(n, x)
+	case *ast.CallExpr:
+		n := &ast.CallExpr{Fun: cl.expr(x.Fun), Lparen: x.Lparen, Ellipsis: x.Ellipsis, Rparen: x.Rparen}
+		for _, a := range x.Args {
+			n.Args = append(n.Args, cl.expr(a))
+		}
+		return keep(n, x)
+	case *ast.BinaryExpr:
+		return keep(&ast.BinaryExpr{X: cl.expr(x.X), OpPos: x.OpPos, Op: x.Op, Y: cl.expr(x.Y)}, x)
+	case *ast.UnaryExpr:
+		return keep(&ast.UnaryExpr{OpPos: x.OpPos, Op: x.Op, X: cl.expr(x.X)}, x)
+	case *ast.StarExpr:
+		return keep(&ast.StarExpr{Star: x.Star, X: cl.expr(x.X)}, x)
+	case *ast.IndexExpr:
+		return keep(&ast.IndexExpr{X: cl.expr(x.X), Lbrack: x.Lbrack, Index: cl.expr(x.Index), Rbrack: x.Rbrack}, x)
+	}
+	return e
+}
+
+func (cl *astCloner) stmt(s ast.Stmt) (ast.Stmt, bool) {
+	switch x := s.(type) {
+	case *ast.AssignStmt:
+		n := &ast.AssignStmt{TokPos: x.TokPos, Tok: x.Tok}
+		for _, l := range x.Lhs {
+			n.Lhs = append(n.Lhs, cl.expr(l))
+		}
+		for _, r := range x.Rhs {
+			n.Rhs = append(n.Rhs, cl.expr(r))
+		}
+		return n, true
+	case *ast.ExprStmt:
+		return &ast.ExprStmt{X: cl.expr(x.X)}, true
+	case *ast.DeclStmt:
+		return x, true
+	}
+	return nil, false
+}
+
+// valueBody converts a function body of assignments, ifs and returns into statements that assign
+// the returned value to target.
+func (cl *astCloner) valueBody(list []ast.Stmt, target *ast.Ident) ([]ast.Stmt, bool) {
+	if len(list) == 0 {
+		return nil, true
+	}
+	s, rest := list[0], list[1:]
+	switch x := s.(type) {
+	case *ast.ReturnStmt:
+		if len(x.Results) != 1 {
+			return nil, false
+		}
+		return []ast.Stmt{&ast.AssignStmt{Lhs: []ast.Expr{target}, TokPos: x.Pos(), Tok: token.ASSIGN, Rhs: []ast.Expr{cl.expr(x.Results[0])}}}, true
+	case *ast.BlockStmt:
+		return cl.valueBody(append(append([]ast.Stmt{}, x.List...), rest...), target)
+	case *ast.IfStmt:
+		var pre []ast.Stmt
+		if x.Init != nil {
+			p, ok := cl.stmt(x.Init)
+			if !ok {
+				return nil, false
+			}
+			pre = append(pre, p)
+		}
+		thenB, ok := cl.valueBody(append(append([]ast.Stmt{}, x.Body.List...), rest...), target)
+		if !ok {
+			return nil, false
+		}
+		var elseList []ast.Stmt
+		if x.Else != nil {
+			elseList = append(elseList, x.Else)
+		}
+		elseB, ok := cl.valueBody(append(elseList, rest...), target)
+		if !ok {
+			return nil, false
+		}
+		n := &ast.IfStmt{If: x.If, Cond: cl.expr(x.Cond), Body: &ast.BlockStmt{Lbrace: x.Body.Lbrace, List: thenB, Rbrace: x.Body.Rbrace}}
+		if len(elseB) > 0 {
+			n.Else = &ast.BlockStmt{Lbrace: x.End(), List: elseB, Rbrace: x.End()}
+		}
+		return append(pre, n), true
+	default:
+		c, ok := cl.stmt(s)
+		if !ok {
+			return nil, false
+		}
+		r, ok := cl.valueBody(rest, target)
+		if !ok {
+			return nil, false
+		}
+		return append([]ast.Stmt{c}, r...), true
+	}
+}
